@@ -10,10 +10,14 @@ RULE = ("well-formed seed messages for every command (several member subsets eac
         "value of every other data type, each bounded member pushed one past its limit; plus all 256 command bytes. The implementation's status "
         "must equal the model's and must equal the status the fault class calls for (0x01 / 0x14 / 0x12). Non-trivial = distinct faulty message")
 ASSUMPTIONS = ["sign changes of signed-integer members and null for text-struct Option members are not faults (excluded as in the property)"]
-TECHNIQUE = "Coq proof: status range theorem over all inputs and regenerated error-mapping tables; decoder theorems; differential fault enumeration with a fault-class oracle"
-LEVEL_TEXT = ("Theorems on the model: every rejection carries one of exactly three statuses, determined by the error mapping regenerated from /repo "
-              "(InvalidCommand -> 0x01, SerdeMissingField -> 0x14, everything else -> 0x12), for every input; command-byte faults by exhaustive "
-              "computation; single-fault enumeration over spec-built seeds compared with the extracted model and with an independent fault-class oracle.")
+TECHNIQUE = "Coq proof: status range and status/fault-kind equivalences for all inputs; missing required member -> MissingParameter, duplicated key -> InvalidCbor (entry-loop theorems, any entry order); the decoder's verdict depends only on the bytes read, hence EVERY proper prefix of the encoding of every well-typed parameter value is InvalidCbor (truncation theorem, via totality + round trip); error-mapping tables regenerated from /repo; differential fault enumeration with a fault-class oracle"
+LEVEL_TEXT = ("Theorems (Properties/C05.v): every rejection carries one of exactly three statuses for every input; 0x14 iff the typed decoder reported a missing member and 0x01 iff the command byte is "
+              "unsupported (all 256 bytes); a parameter map in any order lacking a required parameter, or a nested structure lacking a required member, is SerdeMissingField; a key occurring a second time "
+              "after any run of valid entries is a custom error (c05_duplicate_parameter / c05_duplicate_member); c05_verdict_prefix_stable (coq/Proofs/PrefixP.v dec_ext, by induction over the codec "
+              "including the skipper and all element loops): a successful read and any failure other than UnexpectedEnd are unchanged by appending bytes; c05_truncation_is_invalid_cbor: for every "
+              "command, every well-typed parameter value of any size and every proper prefix of its encoding, Request::deserialize answers 0x12. The error-mapping arms and status discriminants are "
+              "regenerated from /repo and compared by the kernel. Wrong-type, non-minimal and indefinite-length faults are decided by the single-fault enumeration over spec-built seeds, compared with "
+              "the extracted model and with an independent fault-class oracle.")
 feature_sets = default_feature_sets
 
 
